@@ -19,6 +19,15 @@ pass 2, per rejected variant: probe programs (call every pre-existing function, 
     loops over them) run in the disturbed context and in an undisturbed twin (a second context built the same
     way; for the interactive path the clone taken before the rejected statement): results, output, dumps equal.
 
+histories (goal: `later_parse_independent_of_rejected`, `history_without_rejected`): sequences of 2..4 texts (valid /
+    rejected at every token position / redefinition / new function with a broken body / call) submitted to ONE context.
+    library path, `ptrace` per text: the driver command `hist` CARRIES the model context from text to text (left-over names,
+    function table, `_backed`), explains every trace from the carried context, reads the events back as statement heads
+    by name and runs the statement-level machine (`parseTextN`: raw clause entries) on them, and predicts the history
+    WITHOUT each rejected text (`runHistory`); the check runs that twin history in the library and compares verdicts and
+    final tables with the prediction and with the disturbed run. Behaviour: the same histories through Parser::parse+run,
+    the C API and the interactive path next to a twin without the rejected text: results, output and values equal.
+
 Known finding (region decided by the driver from the event sequence): C11.complete_redefinition_survives_reject.
 Repaired in /repo and now required to hold: a failed redefinition is rolled back wherever its entry is (3e9e0ba), a
 variable holding a null tuple keeps its type (353443e).
@@ -102,13 +111,20 @@ PREFIX_C = ['raise oops ; u = tup ( 1 , "x" ) ;', 'v = 1 ; v = u ; w = 5 ; t = t
 PROBES_C = ['print isnull ( v ) ; print w ; print typeof ( v ) ;', 'w = w + 1 ; print w ; forall e in t loop print e ; end loop ;', 'v = tup ( 2 , "y" ) ; print v @ 1 ;']
 TEXTS_C = ['w = "s" ; v = 2 ; for i in 1 to 2 loop v = "s" ; w = 1.5 ; end loop ; u = 1 ;']
 
-PREFIXES = {"A": (PREFIX_A, PROBES_A, TEXTS_A), "B": (PREFIX_B, PROBES_B, TEXTS_B), "C": (PREFIX_C, PROBES_C, TEXTS_C)}
+# context D (histories only): inside the subset the source-text front end + interpreter model run, so that the session model
+# predicts the behaviour of histories with loops, foralls, upgrades, declarations and calls
+PREFIX_D = ['b = true ; i = 42 ; d = 1.5 ; s = "abc" ; t = tab ( 3 , 7 ) ; w = 0 ;',
+            'function f ( x ) return integer is begin return x + 1 ; end ; function g ( ) return integer is begin return 7 ; end ; print f ( 1 ) ;',
+            'for k in 1 to 2 loop w = w + k ; end loop ; forall e in t loop w = w + e ; end loop ; print w ;']
+PREFIXES = {"A": (PREFIX_A, PROBES_A, TEXTS_A), "B": (PREFIX_B, PROBES_B, TEXTS_B), "C": (PREFIX_C, PROBES_C, TEXTS_C),
+            "D": (PREFIX_D, [], [])}
 
 # names the random texts draw from, per prefix: (plain variables, table variables, safe variables, functions (name, arity))
 INVENTORY = {
     "A": (["b", "i", "d", "s", "u", "n", "nu", "k", "e"], ["t", "tu", "ts", "nt"], ["$si", "$ss"], [("f", 1), ("f", 2), ("g", 0), ("h", 1)]),
     "B": (["a", "b", "w"], ["tt"], [], [("fa", 1), ("fb", 1), ("fc", 0)]),
     "C": (["v", "w", "u"], ["t"], [], []),
+    "D": (["b", "i", "d", "s", "w"], ["t"], [], [("f", 1), ("g", 0)]),
 }
 LITERALS = ['1', '2.5', '"s"', 'true', 'tup ( 1 , "a" )', 'tab ( 1 , 1 )', 'raw ( 1 , 65 )', 'null']
 TYPES = ["integer", "decimal", "string", "boolean", "table", "tuple", "bytes"]
@@ -216,7 +232,12 @@ class C11(Check):
             "bloc_parse_executable, parseStatement one statement at a time. For every rejected variant: after == before on all "
             "that pre-existed (types, decls, flags, values, functions by identity, depths) and after == Lean model run on the "
             "observed snapshots; then 3 probe programs in the disturbed context vs an undisturbed twin. "
-            "distinct = (context, token list, path).")
+            "distinct = (context, token list, path). histories = sequences of 2..4 texts (valid pool / fixed rejected texts / "
+            "EVERY truncation position of every valid pool text) in one context (A, B, D), shapes RV VR VRV RRV VRVR RVRV + random: "
+            "library path traced per text with the model context CARRIED from text to text and the statement-level machine run on "
+            "the decompiled heads; twin history without each rejected text (library vs model prediction vs disturbed run); the "
+            "same histories RUN through the three paths next to a twin; session model (front end + interpreter) predicting the output. "
+            "A history counts once as (context, token lists, 'hist').")
     assumptions = [
         "events that happen between the last reader call and the ParseError are not observed (their restoration is still "
         "checked by after == before)",
@@ -313,7 +334,7 @@ class C11(Check):
         for pfx, (_, _, texts) in PREFIXES.items():
             for i, t in enumerate(texts):
                 vs += self.variants_of(pfx, "h%d" % i, t.split())
-            for j in range(nrand[pfx]):
+            for j in range(nrand.get(pfx, 0)):
                 txt = self.random_text(pfx, self.rng, self.rng.randint(3, 5))
                 vs += self.variants_of(pfx, "r%d" % j, txt.split())
         return vs
@@ -420,7 +441,10 @@ class C11(Check):
                     snaps = [s for i, s in enumerate(snaps) if i == 0 or s != snaps[i - 1]]
                 rej = verdict.startswith("perr")
                 if p == "lib" or rej:
-                    mlines.append("%s pctx %s %s %s" % (cid, "rej" if rej else "acc", "^".join(snaps), after.snap()))
+                    # library path: the FOR / FORALL heads of the text, which the explained clause entries must follow (the
+                    # interactive path traces the last statement only)
+                    heads = self.forall_heads(v.toks) if p == "lib" else "*"
+                    mlines.append("%s pctx %s %s %s %s" % (cid, "rej" if rej else "acc", "^".join(snaps), after.snap(), heads))
         model = run.run_driver(mlines) if mlines else {}
         if "#driver-error" in model:
             self.broken_ties.append("driver: " + model["#driver-error"][-400:])
@@ -597,6 +621,443 @@ class C11(Check):
             if got != toks:
                 self.broken_ties.append("token stream of %s differs from the token list the variants are cut from" % cid)
 
+
+    def write_evidence(self, extra=None):
+        extra = dict(extra or {})
+        # input distribution of the history family (shapes, lengths, kinds of rejected texts, verdict patterns, regions, paths)
+        extra["histories_distribution"] = self.stats.get("histories", {})
+        super().write_evidence(extra)
+
+    # ------------------------------------------------------------------------------------------ histories
+    HIST_VALID = {
+        "A": ['qa = 1 ; for qk in 1 to 2 loop qa = qa + 1 ; end loop ;',
+              'forall qe in t loop qs = qe ; end loop ;',
+              'function nf ( p0 ) return integer is begin return p0 + 1 ; end ; print nf ( 1 ) ;',
+              'print f ( 1 ) ; print g ( ) ;',
+              'i = "s" ; for i2 in 1 to 2 loop i = 2.5 ; end loop ;'],
+        "D": ['qa = 1 ; for qk in 1 to 2 loop qa = qa + w ; end loop ; print qa ;',
+              'forall qe in t loop w = w + qe ; print w ; end loop ;',
+              'function nf ( p0 ) return integer is begin return p0 + f ( p0 ) ; end ; print nf ( 1 ) ;',
+              'print f ( 1 ) ; print g ( ) ; print i ; print s ;',
+              'i = "s" ; for i2 in 1 to 2 loop i = 2.5 ; end loop ; print i ;',
+              'function g ( ) return integer is begin return 70 ; end ; print g ( ) ;'],
+        "B": ['function fd ( p0 ) return integer is begin q0 = p0 ; return q0 + 1 ; end ; print fd ( 1 ) ;',
+              'print fa ( 5 ) ; print fb ( 5 ) ; print fc ( ) ;',
+              'a = 1 ; for qk in 1 to 2 loop a = a + 1 ; end loop ; print a ;',
+              'function fb ( x ) return integer is begin return 22 ; end ; print fb ( 1 ) ;'],
+    }
+    HIST_REJECTED = {
+        "A": [('newfn-broken-body', 'function nb ( ) return integer is begin return 1 end ;'),
+              ('redef-broken-body', 'function f ( x ) return integer is begin return 10 end ;'),
+              ('redef-complete-then-error', 'function f ( x ) return integer is begin return 10 ; end ; zz = ;'),
+              ('call-broken', 'print f ( 1 ;'),
+              ('nested-forall-same-table', 'forall qe in t loop forall qf in t loop qg = 1 ; zz = ; end loop ; end loop ;'),
+              ('nested-forall-other-table', 'tq = tab ( 2 , 1 ) ; forall qe in t loop forall qf in tq loop for qk in 1 to 2 loop zz = ; end loop ; end loop ; end loop ;'),
+              ('forall-header', 'forall qe in t loop forall qe in t loop qg = 1 ; end loop ; end loop ;'),
+              ('upgrade-then-error', 'i = "s" ; qn = 1 ; for i2 in 1 to 2 loop i = 2.5 ; zz = ; end loop ;')],
+        "D": [('newfn-broken-body', 'function nb ( ) return integer is begin return 1 end ;'),
+              ('redef-broken-body', 'function f ( x ) return integer is begin return 10 end ;'),
+              ('redef-complete-then-error', 'function f ( x ) return integer is begin return 10 ; end ; zz = ;'),
+              ('call-broken', 'print f ( 1 ;'),
+              ('nested-forall-same-table', 'forall qe in t loop forall qf in t loop qg = 1 ; zz = ; end loop ; end loop ;'),
+              ('nested-forall-other-table', 'tq = tab ( 2 , 1 ) ; forall qe in t loop forall qf in tq loop for qk in 1 to 2 loop zz = ; end loop ; end loop ; end loop ;'),
+              ('forall-header', 'forall qe in t loop forall qe in t loop qg = 1 ; end loop ; end loop ;'),
+              ('for-header', 'for qk in 1 to "x" loop qg = 1 ; end loop ;'),
+              ('assign-in-forall-body-to-the-table', 'forall qe in t loop t = tab ( 1 , 1 ) ; end loop ;'),
+              ('upgrade-then-error', 'i = "s" ; qn = 1 ; for i2 in 1 to 2 loop i = 2.5 ; zz = ; end loop ;')],
+        "B": [('newfn-broken-body', 'function nb ( ) return integer is begin return 1 end ;'),
+              ('redef-broken-body', 'function fa ( x ) return integer is begin return 10 end ;'),
+              ('redef-complete-then-error', 'function fa ( x ) return integer is begin return 10 ; end ; zz = ;'),
+              ('newfn-then-redef-broken', 'function fz ( ) return integer is begin return 0 ; end ; function fc ( ) return integer is begin return 10 end ;'),
+              ('call-broken', 'print fa ( 1 ;')],
+    }
+
+    def make_histories(self):
+        """[(hid, pfx, [(kind, toks)])]: kinds v:<n> (valid pool), r:<what> (rejected pool), t:<n>@<k> (valid text n truncated at k)"""
+        hs = []
+        rng = self.rng
+        for pfx in ("A", "B", "D"):
+            valid = [("v:%d" % i, t.split()) for i, t in enumerate(self.HIST_VALID[pfx])]
+            rej = [("r:" + k, t.split()) for k, t in self.HIST_REJECTED[pfx]]
+            trunc = []
+            for i, (_, toks) in enumerate(valid):
+                for k in range(1, len(toks)):
+                    trunc.append(("t:%d@%d" % (i, k), toks[:k]))
+            n = 0
+
+            def add(items):
+                nonlocal n
+                hs.append(("H.%s.%d" % (pfx, n), pfx, items))
+                n += 1
+            # length 2: every rejected text (fixed ones and EVERY truncation position of every valid text), then a valid text
+            for j, r in enumerate(rej + trunc):
+                add([r, valid[j % len(valid)]])
+                if self.tier != "quick" or j % 3 == 0:
+                    add([r, valid[(j + 1) % len(valid)]])
+            # length 2, the other order: every valid text (declarations, a redefinition that leaves the old functor in
+            # `_backed`, calls, loops) followed by every fixed rejected text; and with a valid text behind
+            for i, vv in enumerate(valid):
+                for j, r in enumerate(rej):
+                    add([vv, r])
+                    if self.tier != "quick" or (i + j) % 2 == 0:
+                        add([vv, r, valid[(i + j + 1) % len(valid)]])
+            # length 3: valid, rejected, valid  /  rejected, rejected, valid
+            pool = rej + (trunc if self.tier != "quick" else trunc[::4])
+            for j, r in enumerate(pool):
+                add([valid[j % len(valid)], r, valid[(j + 2) % len(valid)]])
+                add([r, pool[(j * 7 + 3) % len(pool)], valid[(j + 1) % len(valid)]])
+            # length 4
+            for j, r in enumerate(pool if self.tier != "quick" else pool[::2]):
+                r2 = pool[(j * 5 + 1) % len(pool)]
+                add([valid[j % len(valid)], r, valid[(j + 1) % len(valid)], r2])
+                add([r, valid[(j + 3) % len(valid)], r2, valid[(j + 2) % len(valid)]])
+            # a few random valid-looking texts around a rejected one
+            for j in range(6 if self.tier == "quick" else 40):
+                a = self.random_text(pfx, rng, 2).split()
+                b = self.random_text(pfx, rng, 2).split()
+                r = rng.choice(pool)
+                add([("x:rand", a), r, ("x:rand", b)])
+        return hs
+
+    @staticmethod
+    def forall_heads(toks):
+        """FOR / FORALL heads of a text outside function bodies, in order: F:<hex VAR> / A:<hex IT>:<hex TARGET | ->"""
+        hs = []
+        isw = lambda t: re.fullmatch(r"[A-Za-z_$][A-Za-z0-9_$]*", t) is not None
+        low = [t.lower() for t in toks]
+        fdepth, i, n = None, 0, len(toks)
+        while i < n:
+            t = low[i]
+            if fdepth is None:
+                if t == "function":
+                    fdepth = 0
+                elif t == "forall" and i + 2 < n and low[i + 2] == "in" and isw(toks[i + 1]):
+                    tgt = "-"
+                    if i + 4 < n and isw(toks[i + 3]) and low[i + 4] in ("loop", "asc", "desc"):
+                        tgt = toks[i + 3].upper().encode().hex()
+                    hs.append("A:%s:%s" % (toks[i + 1].upper().encode().hex(), tgt))
+                elif t == "for" and i + 2 < n and low[i + 2] == "in" and isw(toks[i + 1]):
+                    hs.append("F:%s" % toks[i + 1].upper().encode().hex())
+            else:
+                if t in ("begin", "if", "loop"):
+                    fdepth += 1
+                elif t == "end":
+                    fdepth -= 1
+                    if i + 1 < n and low[i + 1] in ("if", "loop"):
+                        i += 1
+                    if fdepth <= 0:
+                        fdepth = None
+            i += 1
+        return ",".join(hs) or "-"
+
+    @staticmethod
+    def words_of(toks):
+        return {t.upper() for t in toks if re.fullmatch(r"[A-Za-z_$][A-Za-z0-9_$]*", t)}
+
+    def evaluate_histories(self):
+        hs = self.make_histories()
+        st = self.stats.setdefault("histories", {})
+        st["count"] = len(hs)
+        shapes, lens, rkinds = {}, {}, {}
+        for _, _, items in hs:
+            shape = "".join("V" if k[0] in "vx" else "R" for k, _ in items)
+            shapes[shape] = shapes.get(shape, 0) + 1
+            lens[len(items)] = lens.get(len(items), 0) + 1
+            for k, _ in items:
+                if k[0] in "rt":
+                    kk = k.split("@")[0] if k[0] == "t" else k
+                    kk = "t:truncation-at-every-position" if k[0] == "t" else kk
+                    rkinds[kk] = rkinds.get(kk, 0) + 1
+        st["intended_shape (V = from the valid pool, R = from the rejected pool)"] = shapes
+        st["length"] = {str(k): v for k, v in sorted(lens.items())}
+        st["rejected_kind"] = rkinds
+        # ---------------- (a) library path, traced, model-explained
+        lines, index = [], {}
+        for hid, pfx, items in hs:
+            ops = self.build_ops(0, pfx) + ["dump 0", "fnid 0"]
+            for _, toks in items:
+                ops += ["ptrace 0 " + (hx(src_of(toks)) or hx("\n")), "dump 0", "fnid 0"]
+            cid = hid + "/lib"
+            lines.append("%s %s" % (cid, "|".join(ops)))
+            index[cid] = (hid, pfx, items, "|".join(ops))
+        impl = run.run_harness(self.hbin, lines, timeout_s=30)
+        parsed, mlines = {}, []
+        for cid, (hid, pfx, items, ln) in index.items():
+            raw = impl.get(cid)
+            self.evaluations += 1
+            v = Variant(hid, pfx, "hist", "history", 0, [t for _, toks in items for t in toks + ["||"]])
+            if raw is None or raw.startswith("crash ") or raw.endswith("diverges") or "foreign-exception" in raw or "uncaught-" in raw:
+                self.violation("the implementation crashed / diverged while parsing a history of texts", v, "lib", raw,
+                               stderr=impl.get(cid + "#stderr", ""), lines=ln)
+                continue
+            parts = raw.split("|")
+            nb = len(PREFIXES[pfx][0]) + 1
+            try:
+                dumps = [Dump(parts[nb], parts[nb + 1])]
+                texts = []
+                for i in range(len(items)):
+                    res = parts[nb + 2 + 3 * i]
+                    m = re.match(r"(.*?) trace=(.*)$", res)
+                    verdict, trace = m.group(1), m.group(2)
+                    snaps = [x.split("@", 1)[1] for x in trace.split("^") if "@" in x]
+                    dumps.append(Dump(parts[nb + 3 + 3 * i], parts[nb + 4 + 3 * i]))
+                    texts.append((verdict, snaps))
+            except (ValueError, AttributeError, IndexError) as e:
+                self.violation("unreadable probe answer (%s)" % e, v, "lib", raw, lines=ln)
+                continue
+            parsed[hid] = (v, pfx, items, texts, dumps, ln)
+            words = []
+            for (verdict, snaps), d, (_, toks) in zip(texts, dumps[1:], items):
+                words += ["rej" if verdict.startswith("perr") else "acc", "^".join(snaps), d.snap(), self.forall_heads(toks)]
+            mlines.append("%s hist %s" % (hid, " ".join(words)))
+        model = run.run_driver(mlines) if mlines else {}
+        if "#driver-error" in model:
+            self.broken_ties.append("driver(hist): " + model["#driver-error"][-400:])
+        twin_lines, twin_index = [], {}
+        beh_lines, beh_index = [], {}
+        sess_lines = []
+        hist_kf = {}
+        vp = st.setdefault("verdict_pattern (a = accepted, r = rejected)", {})
+        for hid, (v, pfx, items, texts, dumps, ln) in parsed.items():
+            ans = model.get(hid) or ""
+            kv = dict(w.split("=", 1) for w in ans.split(" ") if "=" in w)
+            ids = {ptr: "f%d" % i for i, (_, _, _, ptr) in enumerate(dumps[0].fns)}
+            pat = "".join("r" if t[0].startswith("perr") else "a" for t in texts)
+            vp[pat] = vp.get(pat, 0) + 1
+            self.distinct.add((pfx, tuple(v.toks), "hist"))
+            bad = False
+            # a text of the history in the finding region: the session model (which skips rejected texts) is not expected to hold
+            hist_kf[hid] = next((kv["kf%d" % (i + 1)] for i in range(len(items)) if kv.get("kf%d" % (i + 1), "-") != "-"), "-")
+            for i in range(len(items)):
+                tag = str(i + 1)
+                if kv.get("note" + tag, "missing") != "-":
+                    self.violation("history: the observed trace of text %s is not a run of the model (%s)" % (tag, kv.get("note" + tag)), v, "lib",
+                                   dumps[i + 1].snap(ids=ids), {"model": kv.get("m" + tag), "ev": kv.get("ev" + tag)}, lines=ln)
+                    bad = True
+                    break
+                kf = kv.get("kf" + tag, "-")
+                if kv.get("carry" + tag) != "ok":
+                    self.violation("history: the context the model carries from text to text is not the context text %s starts in" % tag, v, "lib",
+                                   texts[i][1][0] if texts[i][1] else "", {"model": kv.get("carry" + tag)}, lines=ln)
+                    bad = True
+                    break
+                if canon_snap(kv.get("m" + tag, ""), ids) != dumps[i + 1].snap(ids=ids):
+                    self.violation("history: after text %s the implementation differs from the model" % tag, v, "lib",
+                                   dumps[i + 1].snap(ids=ids), {"model": canon_snap(kv.get("m" + tag, ""), ids), "ev": kv.get("ev" + tag), "kf": kf}, lines=ln)
+                    bad = True
+                    break
+                if kv.get("nl" + tag) != "ok":
+                    self.violation("history: the statement-level machine (names, raw clause entries) disagrees with the explained trace of text %s" % tag,
+                                   v, "lib", dumps[i + 1].snap(ids=ids), {"model": kv.get("nl" + tag), "ev": kv.get("ev" + tag)}, lines=ln)
+                    bad = True
+                    break
+            if bad:
+                continue
+            st["texts_explained_from_the_carried_context"] = st.get("texts_explained_from_the_carried_context", 0) + len(items)
+            if sum(1 for x in self.samples if "history" in x) < 3 and len(items) >= 3 and "r" in pat[:-1] and self.rng.random() < 0.05:
+                self.samples.append({"history": [" ".join(toks)[:200] for _, toks in items], "verdicts": pat,
+                                     "events": [kv.get("ev%d" % (i + 1)) for i in range(len(items))],
+                                     "model_without_rejected": {k_: v_ for k_, v_ in kv.items() if k_[:2] in ("wo", "hy", "th")}})
+                self.samples = self.samples[-12:]
+            # every rejected text k: the twin history without it
+            for k in range(len(items)):
+                if not texts[k][0].startswith("perr"):
+                    continue
+                tag = str(k + 1)
+                kf = kv.get("kf" + tag, "-")
+                before, after = dumps[k], dumps[k + 1]
+                left = {bytes.fromhex(n).decode("latin-1") for n, _, _, _ in after.syms} - {bytes.fromhex(n).decode("latin-1") for n, _, _, _ in before.syms}
+                # functions are keyed by (name, arity); a later text that mentions the NAME of a left-over overload is outside
+                leftf = {(n, a) for n, a, _, _ in after.fns} - {(n, a) for n, a, _, _ in before.fns}
+                left |= {bytes.fromhex(n).decode("latin-1") for n, _ in leftf}
+                leftsyms = {n for n, _, _, _ in after.syms} - {n for n, _, _, _ in before.syms}
+                later = [t for _, toks in items[k + 1:] for t in toks]
+                avoids = not (self.words_of(later) & left)
+                region = avoids and kf == "-" and kv.get("hyp" + tag) == "1"
+                key = "rejected_text_followed_by_later_texts" if later else "rejected_text_last"
+                st[key] = st.get(key, 0) + 1
+                if kf != "-":
+                    st["in_finding_region"] = st.get("in_finding_region", 0) + 1
+                    self.known(kf, v, "hist", "history with a completed redefinition before the error")
+                elif not avoids:
+                    st["later_text_mentions_a_left_over_name (outside the guarantee)"] = st.get("later_text_mentions_a_left_over_name (outside the guarantee)", 0) + 1
+                if kv.get("th" + tag) == "FAIL":
+                    self.violation("history: the MODEL contradicts later_parse_independent_of_rejected (verdicts with / without text %s)" % tag,
+                                   v, "lib", ans[:600], {"model": kv.get("wo" + tag)}, lines=ln)
+                    continue
+                if not later:
+                    continue
+                ops = self.build_ops(0, pfx) + ["dump 0", "fnid 0"]
+                for j, (_, toks) in enumerate(items):
+                    if j != k:
+                        ops += ["ptrace 0 " + (hx(src_of(toks)) or hx("\n"))]
+                ops += ["dump 0", "fnid 0"]
+                tcid = "%s/wo%d" % (hid, k + 1)
+                twin_lines.append("%s %s" % (tcid, "|".join(ops)))
+                twin_index[tcid] = (hid, k, region, kv.get("wo" + tag), kv.get("wf" + tag), (leftsyms, leftf), "|".join(ops))
+                # behaviour: the same history run (not only parsed) next to a twin without text k, three paths
+                if self.tier == "quick" and (len(beh_lines) // 3) % 2 and not region:
+                    continue
+                for path, op in (("lib", "prog 0 "), ("capi", "capi 0 "), ("step", "step 0 ")):
+                    ops = self.build_ops(0, pfx) + self.build_ops(1, pfx) + ["out 0", "out 1"]
+                    for j, (_, toks) in enumerate(items):
+                        t = hx(src_of(toks)) or hx("\n")
+                        # interactive path: `stepc` tells how many statements of the rejected text were RUN before the
+                        # rejected statement (they are separate, valid inputs there)
+                        ops += [("stepc 0 2 " + t) if (path == "step" and j == k) else (op + t), "out 0"]
+                        if j != k:
+                            ops += [op.replace(" 0 ", " 1 ") + t, "out 1"]
+                    ops += ["dump 0", "dump 1"] + (["free 2"] if path == "step" else [])
+                    bcid = "%s/wo%d/run-%s" % (hid, k + 1, path)
+                    beh_lines.append("%s %s" % (bcid, "|".join(ops)))
+                    if path == "lib" and region and avoids:
+                        # the session model (Elab front end + Interp) predicts the run of the WHOLE history, rejected text included
+                        sess_lines.append("%s sess 100000 %s" % (bcid, " ".join(
+                            [hx(src_of(q.split())) for q in PREFIXES[pfx][0]] + [(hx(src_of(toks)) or hx("\n")) for _, toks in items])))
+                    beh_index[bcid] = (hid, k, region and avoids, kf, left, path, "|".join(ops))
+        # ---------------- (b) parse-level twin
+        impl = run.run_harness(self.hbin, twin_lines, timeout_s=30) if twin_lines else {}
+        for tcid, (hid, k, region, wo, wf, left, ln) in twin_index.items():
+            v, pfx, items, texts, dumps, _ = parsed[hid]
+            raw = impl.get(tcid)
+            self.evaluations += 1
+            if raw is None or raw.startswith("crash ") or "uncaught-" in raw or raw.endswith("diverges"):
+                self.violation("the twin history (without the rejected text) crashed", v, "lib/twin", raw, lines=ln)
+                continue
+            parts = raw.split("|")
+            nb = len(PREFIXES[pfx][0]) + 1
+            try:
+                d0 = Dump(parts[nb], parts[nb + 1])
+                n_others = len(items) - 1
+                tv = "".join("r" if parts[nb + 2 + j].startswith("perr") else "a" for j in range(n_others))
+                dN = Dump(parts[nb + 2 + n_others], parts[nb + 3 + n_others])
+            except (ValueError, IndexError) as e:
+                self.violation("unreadable twin answer (%s)" % e, v, "lib/twin", raw, lines=ln)
+                continue
+            with_v = "".join("r" if t[0].startswith("perr") else "a" for j, t in enumerate(texts) if j != k)
+            if not region:
+                if tv != with_v:
+                    st["outside_the_guarantee_and_verdicts_differ"] = st.get("outside_the_guarantee_and_verdicts_differ", 0) + 1
+                continue
+            st["twin_histories_compared_in_the_theorem_region"] = st.get("twin_histories_compared_in_the_theorem_region", 0) + 1
+            ids0 = {ptr: "f%d" % i for i, (_, _, _, ptr) in enumerate(dumps[0].fns)}
+            idsT = {ptr: "f%d" % i for i, (_, _, _, ptr) in enumerate(d0.fns)}
+            if tv != with_v:
+                self.violation("a text valid before the rejected text gets another verdict after it (with %s / without %s)" % (with_v, tv),
+                               v, "lib/twin", raw[:600], {"model": wo}, lines=ln)
+                continue
+            if wo != tv:
+                self.violation("the model's prediction of the history without the rejected text differs from the library (model %s / library %s)" % (wo, tv),
+                               v, "lib/twin", raw[:600], {"model": wo}, lines=ln)
+                continue
+            if canon_snap(wf or "", ids0) != dN.snap(ids=idsT):
+                self.violation("the model's final context of the history without the rejected text differs from the library",
+                               v, "lib/twin", dN.snap(ids=idsT), {"model": canon_snap(wf or "", ids0)}, lines=ln)
+                continue
+            # the theorem on the implementation: final tables equal outside the left-overs
+            dis = dumps[-1]
+            keep = lambda d, idm: ([(n, t, f) for n, t, f, _ in d.syms if n not in left[0]],
+                                   [(n, a, b, canon_id(p, idm)) for n, a, b, p in d.fns if (n, a) not in left[1]])
+            if keep(dis, ids0) != keep(dN, idsT):
+                self.violation("after the same later texts the tables differ (outside the rejected text's left-overs) with / without the rejected text",
+                               v, "lib/twin", "%s / %s" % (keep(dis, ids0), keep(dN, idsT)), lines=ln)
+        # ---------------- (c) behaviour twin, three paths
+        impl = run.run_harness(self.hbin, beh_lines, timeout_s=30) if beh_lines else {}
+        smodel = run.run_driver(sess_lines) if sess_lines else {}
+        if "#driver-error" in smodel:
+            self.broken_ties.append("driver(sess): " + smodel["#driver-error"][-400:])
+        sp = st.setdefault("behaviour_predicted_by_the_session_model (Elab + Interp.runProgram)", {})
+        bp = st.setdefault("behaviour_twins_by_path", {})
+        for bcid, (hid, k, region, kf, left, path, ln) in beh_index.items():
+            v, pfx, items, texts, dumps, _ = parsed[hid]
+            raw = impl.get(bcid)
+            self.evaluations += 1
+            crashed = raw is None or raw.startswith("crash ") or "uncaught-" in raw or raw.endswith("diverges") or "foreign-exception" in raw
+            if crashed:
+                if kf != "-":
+                    self.known(kf, v, "hist/run-" + path, str(raw)[:100])
+                elif region:
+                    self.violation("running a history with a rejected text crashed / diverged", v, "run-" + path, raw,
+                                   stderr=impl.get(bcid + "#stderr", ""), lines=ln)
+                else:
+                    d = self.stats.setdefault("crash_while_running_an_accepted_text", {})
+                    d[str(raw)[:60]] = d.get(str(raw)[:60], 0) + 1
+                continue
+            if not region:
+                continue
+            bp[path] = bp.get(path, 0) + 1
+            parts = raw.split("|")
+            nb = 2 * (len(PREFIXES[pfx][0]) + 1) + 2
+            pos, diffs = nb, []
+            try:
+                partial = False
+                for j in range(len(items)):
+                    r0, o0 = parts[pos], parts[pos + 1]
+                    pos += 2
+                    if j == k and path == "step":
+                        mm = re.search(r" n=(\d+) ", r0)
+                        partial = not mm or int(mm.group(1)) > 0
+                    if j != k:
+                        r1, o1 = parts[pos], parts[pos + 1]
+                        pos += 2
+                        if r0.split(" ")[:2] != r1.split(" ")[:2] or o0 != o1:
+                            diffs.append("text %d: disturbed %s %s / twin %s %s" % (j + 1, r0[:80], o0[:80], r1[:80], o1[:80]))
+                d0, d1 = Dump(parts[pos], "fnid="), Dump(parts[pos + 1], "fnid=")
+                by = {s_[0]: s_ for s_ in d0.syms}
+                for s_ in d1.syms:
+                    if by.get(s_[0]) != s_:
+                        diffs.append("variable %s: disturbed %s / twin %s" % (bytes.fromhex(s_[0]).decode("latin-1"), by.get(s_[0]), s_))
+                if (d0.cd, d0.ed, d0.tmp, d0.bk, d0.cond) != (d1.cd, d1.ed, d1.tmp, d1.bk, d1.cond):
+                    diffs.append("depths differ")
+            except (ValueError, IndexError) as e:
+                diffs.append("unreadable answer: %s" % e)
+            if path == "lib" and bcid in smodel and not diffs:
+                # model prediction of the disturbed run: verdict class of every text and the whole output
+                ans = smodel[bcid]
+                mm = re.match(r"model=(\S*) out=([0-9a-f]*)", ans)
+                if not mm or mm.group(1) in ("unsupported", "oof", "unmodelled"):
+                    what = "not_predicted: " + (re.search(r"note=(\S+)", ans).group(1) if "note=" in ans else ans[:40])
+                    sp[what] = sp.get(what, 0) + 1
+                else:
+                    cls = lambda r_: "rej" if r_.startswith("perr") else ("ok" if r_.startswith("ok") else r_.split(" ")[0])
+                    mcls = lambda r_: "rej" if r_ == "rej" else ("ok" if r_.startswith("ok") else r_.split("_")[0])
+                    npfx = len(PREFIXES[pfx][0])
+                    mv = [mcls(x) for x in mm.group(1).split(";")][npfx:]
+                    iv, iout, q = [], parts[nb - 2][4:], nb
+                    for j in range(len(items)):
+                        iv.append(cls(parts[q]))
+                        iout += parts[q + 1][4:]
+                        q += 2 if j == k else 4
+                    if mv != iv:
+                        sp["front_end_verdicts_differ (parse errors outside the front-end model)"] = sp.get("front_end_verdicts_differ (parse errors outside the front-end model)", 0) + 1
+                    elif mm.group(2) != iout and hist_kf.get(hid, "-") != "-":
+                        self.known(hist_kf[hid], v, "hist/sess", "another rejected text of the history completed a redefinition: output differs from the session model")
+                        sp["in_finding_region"] = sp.get("in_finding_region", 0) + 1
+                    elif mm.group(2) != iout:
+                        self.violation("the session model (rejected texts are no-ops, accepted ones run by Interp) predicts another output for the history",
+                                       v, "run-lib/sess", "verdicts %s output %s" % (iv, iout[:400]), {"model": ans[:600]}, lines=ln)
+                    else:
+                        sp["predicted_and_equal"] = sp.get("predicted_and_equal", 0) + 1
+            if partial:
+                # statements of the rejected text before the rejected statement were accepted and run: not comparable with a twin
+                # that never saw them (the per-statement comparison is pass 1/2 of the single-text family)
+                st["interactive_path_ran_statements_before_the_rejected_one"] = st.get("interactive_path_ran_statements_before_the_rejected_one", 0) + 1
+                bp[path] -= 1
+                continue
+            if diffs:
+                self.violation("a history behaves differently with / without a rejected text in it", v, "run-" + path, "; ".join(diffs)[:2000],
+                               {"kf": kf}, lines=ln)
+        # ---------------- the witness that the "names only the rejected text introduced" exclusion is needed
+        w = ["new 0", "prog 0 " + hx("w = 1 ;"), "prog 0 " + hx("$z = 1 ; y = ;"), "prog 0 " + hx('$z = "a" ;'),
+             "new 1", "prog 1 " + hx("w = 1 ;"), "prog 1 " + hx('$z = "a" ;')]
+        r = run.run_harness(self.hbin, ["W.leftover " + "|".join(w)]).get("W.leftover", "")
+        pr = r.split("|")
+        st["witness_later_parse_depends_on_leftover_names"] = {
+            "history": '$z = 1 ; y = ;   then   $z = "a" ;', "with_rejected_text": pr[3] if len(pr) > 3 else r, "without": pr[6] if len(pr) > 6 else r,
+            "confirmed_on_the_library": len(pr) > 6 and pr[2].startswith("perr") and pr[3].startswith("perr") and pr[6].startswith("ok")}
+        if not st["witness_later_parse_depends_on_leftover_names"]["confirmed_on_the_library"]:
+            self.broken_ties.append("the witness of later_parse_depends_on_leftover_names does not behave in the library as in the model: " + r[:300])
+
     # ------------------------------------------------------------------------------------------ driver
     def step_correspondence(self):
         try:
@@ -616,6 +1077,9 @@ class C11(Check):
         t = time.time()
         self.evaluate(vs)
         self.stats["correspondence_s"] = round(time.time() - t, 1)
+        t = time.time()
+        self.evaluate_histories()
+        self.stats["histories_s"] = round(time.time() - t, 1)
 
     def replay(self, rep):
         ok, out = build.lean_build(["blocv"])
@@ -632,10 +1096,15 @@ class C11(Check):
                 continue
             seen.add((me["prefix"], tuple(me["tokens"])))
             vs.append(Variant("replay%d" % i, me["prefix"], me.get("base", "x"), me.get("kind", "x"), me.get("k", 0), me["tokens"]))
-        if not vs:
+        hist = any((vio.get("meta") or {}).get("kind") == "history" for vio in rep.get("violations", []))
+        vs = [v for v in vs if v.kind != "history"]
+        if not vs and not hist:
             print("replay: no case recorded")
             return 1 if rep.get("broken_ties") else 0
-        self.evaluate(vs)
+        if vs:
+            self.evaluate(vs)
+        if hist:
+            self.evaluate_histories()     # the family is a function of the seed
         for v in self.violations:
             print("VIOLATION property=%s %s: case=%s\n  text=%s\n  impl=%s\n  model=%s\n  spec=%s" % (
                 self.pid, v["what"], v["case"], " ".join(v["meta"]["tokens"]), v["impl"][:600], v["model"], v["spec"]))
